@@ -114,6 +114,11 @@ CLAIMED = {
          "xbus.SendMsg visits every pipe and queues a copy only when the pipe id differs from the source id (header word of a forwarded message, else 0), the receiver records the arrival pipe; cooked BUS strips headers and never forwards; "
          "xstar forwards a private copy to every pipe but the arrival pipe, delivers its own copy upward, counts the hop and drops exactly when len<4, reserved bytes != 0 or hops >= ttl (an empty payload passes); STAR sends need the 4-byte header. Topology-level exactly-once is not decided.",
          "Anchored in the bus/xbus/star/xstar packages.", "DESIGN.md 4/C08"),
+ "C20": ("static analysis: guard-atom check of every narrowing length conversion, constant tables (msgpack tags/widths, quoted escapes), path-condition evaluation of the mode switch per protocol constant, anchored shape rules for set-once options and send loops, E6d bounds",
+         "Every byte()/uint16() of a length in macat is dominated by len < 256 / len < 65536 (so msgpack length fields equal the message length at the 255/256 and 65535/65536 boundaries), tags c4/c5/c6 carry 1/2/4 big-endian length bytes followed by the whole body; "
+         "the quoted escape table covers LF, CR, backslash and quote with \\x%02x for non-printables, ascii maps non-printables to '.', raw writes the body as is; every protocol offered by getOptions reaches exactly the loop(s) allowed for its direction; set-once options reject a second value and an explicit --count is never overridden; bare integers are seconds; send loops send all the data and honour the count. "
+         "Printed bytes for every input, exit status and file contents are not decided.",
+         "The encoders' per-byte maps (strconv.IsPrint) are library behaviour.", "DESIGN.md 4/C20"),
 }
 
 NOT_YET = "check not built yet (work in progress; planned static rules in DESIGN.md section 4)"
